@@ -216,6 +216,35 @@ func c09Exec(cs fw.Case) *fw.Fail {
 				}
 			}
 		}
+		// the exported Load method into a Prog that already holds another program (parsed from a longer
+		// source with more constants and lines; then loaded a second time): nothing of the old one remains
+		{
+			var uout, ulog bytes.Buffer
+			used, uerr := bcl.Parse([]byte(c09UsedSrc), "used", bcl.OptOutput(&uout), bcl.OptLogger(&ulog))
+			if uerr != nil {
+				return fw.Failf("the filler program parses", "%v", uerr)
+			}
+			for round := 1; round <= 2; round++ {
+				loads++
+				if lerr := used.Load(bytes.NewReader(dump)); lerr != nil {
+					return fw.Failf(fmt.Sprintf("Load into a used Prog succeeds (round %d)", round), "error: %v", lerr)
+				}
+				uout.Reset()
+				ulog.Reset()
+				bl, bi, xerr := bcl.Execute(used)
+				got := impl.Ran{Blocks: bl, Binding: bi, Err: xerr, Out: uout.String(), Log: ulog.String()}.Summary()
+				if got != orig {
+					return fw.Failf(fmt.Sprintf("same execution after Load into a used Prog (round %d): %s", round, fw.Trunc(orig, 300)), "%s", fw.Trunc(got, 300))
+				}
+				var d2 bytes.Buffer
+				if derr := used.Dump(&d2); derr != nil {
+					return fw.Failf("re-dump succeeds", "%v", derr)
+				}
+				if !bytes.Equal(d2.Bytes(), dump) {
+					return fw.Failf(fmt.Sprintf("re-dump byte-identical after Load into a used Prog (round %d)", round), "differs: %d vs %d bytes, equal prefix %d", d2.Len(), len(dump), commonPrefix(d2.Bytes(), dump))
+				}
+			}
+		}
 		fw.Tally("loads", int64(loads))
 		fw.Tally("partitions", int64(loads))
 		fw.TallyOutcome("roundtrip-ok")
@@ -223,6 +252,9 @@ func c09Exec(cs fw.Case) *fw.Fail {
 		return nil
 	})
 }
+
+// c09UsedSrc: what a Prog holds before a dump is loaded into it (more lines, constants and code than most dumps)
+var c09UsedSrc = strings.Repeat("\n# filler\n", 30) + "var u1 = \"old string constant\"\nvar u2 = 123456\nprint u1 + u2\ndef old_block \"old name\" { old_field = 2.5 }\nbind old_block -> struct\n\n\n"
 
 func trimInts(x []int) string {
 	s := fmt.Sprint(x)
@@ -237,7 +269,7 @@ func init() {
 		Level: "model_checking",
 		Rule: "for every accepted program of the core corpus K and the scaled families S (string / identifier / block-name lengths around 94, 240/241, 2287/2288, 4096, 67823/67824; constant pools of 240..242; offsets in every varint class; boundary floats) and for program names of length 0..67824 and names holding %, NUL, newline, non-ASCII and invalid UTF-8 bytes: " +
 			"Dump, then LoadProg under every read delivery of a bounded family (whole, 1 byte/read, data+EOF, halves, every fixed size 2..17 and 4095..4097, every partition with <=k cut points: k=1 for dumps <=6000 B, k=2 for <=150 B (thorough <=900 B), k=3 for <=48 B (thorough <=110 B)); " +
-			"oracle: nil errors, identical disassembly, identical execution (output, blocks, binding, warnings, error text incl. position), byte-identical re-dump, and the independent decoder recovers the name and a line table equal to the newline offsets of the source. Thorough adds every program of the C01-C04 enumerations under the whole / 1-byte / fixed-size deliveries. A case is (program, name); counters.loads counts LoadProg calls.",
+			"oracle: nil errors, identical disassembly, identical execution (output, blocks, binding, warnings, error text incl. position), byte-identical re-dump (also after loading the dump twice with the exported Load method into a Prog that held a larger program), and the independent decoder recovers the name and a line table equal to the newline offsets of the source. Thorough adds every program of the C01-C04 enumerations under the whole / 1-byte / fixed-size deliveries. A case is (program, name); counters.loads counts LoadProg calls.",
 		Subs:           []*fw.Sub{subC09},
 		BudgetQuick:    100,
 		BudgetThorough: 1500,
